@@ -16,7 +16,7 @@ from sx.core import ite, floor_, sym_eq, or_, and_, Sym, where
 PROPERTY = "C09"
 LEVEL = "model_checking"
 BOUNDS = {"cells_per_series": "N<=3", "index_shapes": "same / shifted by 1 h / disjoint / longer / tz-aware UTC / naive",
-          "unit_pairs": "GB-MB, hour-min, W-kW, dimensionless-percent (compatible); GB-hour, W-dimensionless (incompatible "
+          "unit_pairs": "GB-MB, hour-min, W-kW, dimensionless-percent (compatible); GB-hour, W-dimensionless, cpu_core-gpu, gpu-dimensionless (incompatible "
                         "for + -, fine for * /)", "shift": "[0, 3 h]",
           "operators": "+ - * / and reflected, sum max abs ceil neg copy round to shift np_compared_with "
                        "compare_with_and_return_max"}
@@ -137,6 +137,10 @@ def h_binary(ctx, op, ka, ua, kb, ub, shape="same", n=2):
     b = mk(ctx, kb, "b", ub, n_b, off_b, tz_b)
     A0, B0 = pv(a), pv(b)
     exp = expected(op, A0, B0)
+    if op in ("+", "-") and ((ua, ub) in INCOMPAT or (ub, ua) in INCOMPAT) and ka != "empty" and kb != "empty" \
+            and ka != "zero" and kb != "zero":
+        # stated independently of the unit registry under test (the custom units cpu_core and gpu are separate dimensions)
+        exp = "raise"
     if op == "/" and kb in ("scalar", "hourly"):
         for v in B0[1].values():
             ctx.assume(v != 0)
@@ -335,7 +339,7 @@ def h_helper(ctx, helper, unit="GB", n=3, unit2=None, shape="same"):
 
 HARNESSES = {"binary": h_binary, "helper": h_helper}
 COMPAT = [("GB", "MB"), ("hour", "min"), ("W", "kW"), ("dimensionless", "percent"), ("GB", "GB")]
-INCOMPAT = [("GB", "hour"), ("W", "dimensionless")]
+INCOMPAT = [("GB", "hour"), ("W", "dimensionless"), ("cpu_core", "gpu"), ("gpu", "dimensionless")]   # incl. the custom units
 KINDS = ["scalar", "hourly", "empty"]
 
 
